@@ -101,10 +101,10 @@ pub(crate) fn run_scheduling_solver(
                 if rq.is_multi_node() {
                     if worker.is_free()
                         && worker.has_time_to_run(rq.min_time(), now)
+                        // The fake workers of a new-worker query belong to no real group
                         && worker_groups
                             .get(&worker.configuration.group)
-                            .unwrap()
-                            .is_capable_to_run_rq(rq, now, worker_map)
+                            .is_some_and(|group| group.is_capable_to_run_rq(rq, now, worker_map))
                     {
                         set_placement_name(&mut solver, worker.id, batch.resource_rq_id, v_idx);
                         let v = create_mn_var(
